@@ -186,6 +186,13 @@ func (c *Conn) Read(p []byte) (int, error) {
 			c.mu.Unlock()
 			return 0, &net.OpError{Op: "read", Net: "sim", Err: net.ErrClosed}
 		}
+		if !c.rdl.IsZero() && !time.Now().Before(c.rdl) {
+			// as net.Conn: a read deadline that has passed fails the call even when bytes
+			// are waiting (the poller checks the deadline before it reads)
+			c.note("read-past-deadline")
+			c.mu.Unlock()
+			return 0, &net.OpError{Op: "read", Net: "sim", Err: os.ErrDeadlineExceeded}
+		}
 		if len(c.in) > 0 && len(p) > 0 {
 			n := len(c.in)
 			if n > len(p) {
@@ -289,6 +296,10 @@ func (c *Conn) Write(p []byte) (int, error) {
 	if c.closed {
 		c.note("write-after-close")
 		return 0, &net.OpError{Op: "write", Net: "sim", Err: net.ErrClosed}
+	}
+	if !c.wdl.IsZero() && !time.Now().Before(c.wdl) {
+		c.note("write-past-deadline")
+		return 0, &net.OpError{Op: "write", Net: "sim", Err: os.ErrDeadlineExceeded}
 	}
 	c.note("write")
 	at := time.Since(c.start)
